@@ -12,8 +12,10 @@ contents compared" is a hypothesis wherever it is needed, never an axiom.  `r.su
 in `FinishedState` with `NoError`; `r.acc` = what the receiver's output device actually HOLDS (not the job's byte
 counter), `r.fed` = the bytes the running MD5 was fed.  `initDev dev …` starts a transfer into a device that may take
 fewer bytes per `write()` than offered, run full, or fail (`Dev`); `init … = initDev .unlimited …` (QBuffer, healthy
-file).  The code calls `write()` once per block, counts what the device reports, hashes the whole block and never
-retries, so `acc`, `fed` and the counter may differ — the theorems below are about `acc`.
+file).  The code calls `write()` once per block and never retries; a failed or short write ends the job with
+`FileAccessError` (repo commit 705738b), leaving in the device whatever it took; counter and hash only see complete
+blocks (`done = |fed|`).  The theorems below are about `acc`.  `timeout` is the in-band inactivity timer (repo commit
+afd7dc9) firing: every job in `TransferState` ends with `ProtocolError`.
 
 Counters: both jobs keep `quint16 ibbSequence` (since repo commit 49cbe2e; it was `int` before, which made every
 transfer of more than 65536 blocks fail — the former `C19_defect_seq_wrap`).  The model uses `UInt16` for both
@@ -23,43 +25,44 @@ namespace Qx.C19
 
 /-! ## Success means identical bytes -/
 
-/-- **Success ⇒ the device holds identical bytes, whatever the channel and the device do** (offer carried the MD5 and
-the true size).  For every file, block sizes, EVERY channel history — including altered blocks and requests forged in
-the sender's name — and every receiving device (`dev`: takes everything, at most k bytes per write, runs full, fails):
-if the receiving job reports success, its output device holds exactly the sender's bytes, provided MD5 does not
-collide between what the hash was fed and the file (`hcoll`).  The true size must have been announced unless the device
-takes everything (`hsz`): the hash covers the bytes OFFERED to the device, only the size check (`done`, the sum of what
-`write()` reported) notices a short write — a peer that omits the size attribute (XEP-0096 requires it; qxmpp always
-sends it for a non-empty file) leaves short writes undetected. -/
-theorem success_implies_identical_bytes (H : List UInt8 → List UInt8) (dev : Dev) (bsS bsR size : Nat) (data : List UInt8)
-    (ops : List Op) (hsz : size = data.length ∨ dev = .unlimited)
-    (hcoll : H (run H (initDev dev bsS bsR size (some (H data)) data) ops).1.r.fed = H data →
-             (run H (initDev dev bsS bsR size (some (H data)) data) ops).1.r.fed = data) :
-    (run H (initDev dev bsS bsR size (some (H data)) data) ops).1.r.success →
-    (run H (initDev dev bsS bsR size (some (H data)) data) ops).1.r.acc = data := by
+/-- **Success ⇒ the device holds identical bytes, whatever the channel does** (offer carried the MD5; receiving device
+takes what it is given).  For every file, block sizes, announced size — even a wrong or absent one — and EVERY
+channel history, including altered blocks, requests forged in the sender's name, lost stanzas and timers firing: if the
+receiving job reports success, its output device holds exactly the sender's bytes, provided MD5 does not collide
+between what the hash was fed and the file (`hcoll`).  (For devices that may refuse data see
+`success_implies_identical_bytes_by_sequence_partial`, `socks_success_implies_identical_bytes` and
+`short_write_ends_with_access_error`: a forged `<open/>` can revive a job that ended with `FileAccessError`, which is
+why this theorem does not quantify over devices.) -/
+theorem success_implies_identical_bytes (H : List UInt8 → List UInt8) (bsS bsR size : Nat) (data : List UInt8)
+    (ops : List Op)
+    (hcoll : H (run H (init bsS bsR size (some (H data)) data) ops).1.r.fed = H data →
+             (run H (init bsS bsR size (some (H data)) data) ops).1.r.fed = data) :
+    (run H (init bsS bsR size (some (H data)) data) ops).1.r.success →
+    (run H (init bsS bsR size (some (H data)) data) ops).1.r.acc = data := by
   intro hs
-  have hc := run_checked H ops _ (checked_init H dev bsS bsR size (some (H data)) data)
+  have hc := run_checked H ops _ (checked_init H .unlimited bsS bsR size (some (H data)) data)
   have hck := (checkFails_false_iff H _).1 (hc hs.1 hs.2)
   have hh := run_r_inv H (fun r => r.hash = some (H data))
-    (by intro r p h; unfold recv; repeat (first | exact h | split | simpa using h)) ops
-    (initDev dev bsS bsR size (some (H data)) data) rfl
+    (by intro r p h; unfold recv; repeat (first | exact h | split | simpa using h)) (fun r h => by simpa using h) ops
+    (init bsS bsR size (some (H data)) data) rfl
   have hfed := hcoll (hck.2 _ hh)
-  rcases hsz with hsz | hu
-  · have hsize := run_r_inv H (fun r => r.size = size)
-      (by intro r p h; unfold recv; repeat (first | exact h | split | simpa using h)) ops
-      (initDev dev bsS bsR size (some (H data)) data) rfl
-    have haf := run_r_inv H AF (recv_AF H) ops (initDev dev bsS bsR size (some (H data)) data) (Or.inl rfl)
-    rcases haf with haf | haf
-    · rw [haf]; exact hfed
-    · rw [hfed] at haf
-      by_cases hz : size = 0
-      · omega
-      · have := hck.1 (by rw [hsize]; exact hz)
-        rw [hsize] at this
-        omega
-  · have hafu := run_r_inv H AFU (recv_AFU H) ops (initDev dev bsS bsR size (some (H data)) data)
-      ⟨hu, rfl⟩
-    rw [hafu.2]; exact hfed
+  have hafu := run_r_inv H AFU (recv_AFU H) (fun r h => by simpa [AFU] using h) ops
+    (init bsS bsR size (some (H data)) data) ⟨rfl, rfl⟩
+  rw [hafu.2]; exact hfed
+
+/-- **A write the device does not take completely ends the receiving job with `FileAccessError` at once**: for every
+job in `TransferState`, every device and block — either the device took the whole block (content, counter and hash
+advance by it, nothing else changes) or the job is now finished with `FileAccessError`, counter and hash unmoved. -/
+theorem short_write_ends_with_access_error (r : Recv) (pl : List UInt8) (ht : r.state = .transfer) :
+    ((r.write pl).acc = r.acc ++ pl ∧ (r.write pl).fed = r.fed ++ pl ∧ (r.write pl).state = .transfer) ∨
+    ((r.write pl).state = .finished ∧ (r.write pl).error = .access ∧ (r.write pl).fed = r.fed ∧
+      ∃ w, (w < pl.length ∨ w = 0) ∧ (r.write pl).acc = r.acc ++ pl.take w) := by
+  rcases Recv.write_cases r pl with ⟨h1, h2, h3, _⟩ | ⟨w, hw, h1, h2, r0, e1, _, e3⟩
+  · exact Or.inl ⟨h1, h2, by rw [h3, ht]⟩
+  · right
+    have hst : (r.write pl).state = .finished ∧ (r.write pl).error = .access := by
+      rw [e3]; unfold Recv.terminate; simp [e1, ht]
+    exact ⟨hst.1, hst.2, h2, w, hw, h1⟩
 
 /-
 Full statement (no bound on the number of blocks):
@@ -96,14 +99,25 @@ theorem success_implies_identical_bytes_by_sequence_partial (H : List UInt8 → 
   have hc := run_checked H ops _ (checked_init H dev bsS bsR data.length hash data)
   have hsz : (run H (initDev dev bsS bsR data.length hash data) ops).1.r.size = data.length :=
     run_r_inv H (fun r => r.size = data.length)
-      (by intro r p h; unfold recv; repeat (first | exact h | split | simpa using h)) ops _ rfl
+      (by intro r p h; unfold recv; repeat (first | exact h | split | simpa using h)) (fun r h => by simpa using h) ops _ rfl
+  have haf := run_r_inv H AF (recv_AF H) (fun r h => terminate_AF r _ h) ops
+    (initDev dev bsS bsR data.length hash data) (Or.inl rfl)
+  have hdv : (run H (initDev dev bsS bsR data.length hash data) ops).1.r.dev = dev :=
+    run_r_inv H (fun r => r.dev = dev)
+      (by intro r p h; unfold recv; repeat (first | exact h | split | simpa using h)) (fun r h => by simpa using h) ops _ rfl
+  have hu' : (run H (initDev dev bsS bsR data.length hash data) ops).1.r.dev = .unlimited →
+      (run H (initDev dev bsS bsR data.length hash data) ops).1.r.acc = (run H (initDev dev bsS bsR data.length hash data) ops).1.r.fed := by
+    intro hun
+    rw [hdv] at hun
+    exact (run_r_inv H AFU (recv_AFU H) (fun r h => by simpa [AFU] using h) ops
+      (initDev dev bsS bsR data.length hash data) ⟨hun, rfl⟩).2
   rcases hdev with hu | h65535
   · have hi := inv_run H data bsS 65536 (Nat.le_refl _) hlen ops _ hb
       (inv_init dev bsS bsR data.length 65536 hash data (fun _ => hu))
-    exact rinv_success_identical H data bsS 65536 _ hsz hi.r hc hs
+    exact rinv_success_identical H data bsS 65536 _ hsz hi.r haf hu' hc hs
   · have hi := inv_run H data bsS 65535 (by omega) h65535 ops _ hb
       (inv_init dev bsS bsR data.length 65535 hash data (by omega))
-    exact rinv_success_identical H data bsS 65535 _ hsz hi.r hc hs
+    exact rinv_success_identical H data bsS 65535 _ hsz hi.r haf hu' hc hs
 
 /-! ## The fault-free run -/
 
@@ -156,8 +170,8 @@ theorem fault_never_success_partial (H : List UInt8 → List UInt8) (bsS bsR : N
   · exact doomed_never_success H data bsS j hlen _ (wrongSid_doomed H bsS bsR hash data j hlen hblk) cont hc
   · exact doomed_never_success H data bsS j hlen _ (wrongSender_doomed H bsS bsR hash data j hlen hblk) cont hc
 
-/-- **… but a corruption error: after a lost, reordered or mislabelled block, or a stream cut short, the receiving job
-FINISHES with `FileCorruptError`** once the honest remainder of the exchange has been delivered (two more deliveries
+/-- **… but a corruption error, even before any timer: after a lost, reordered or mislabelled block, or a stream cut
+short, the receiving job FINISHES with `FileCorruptError`** once the honest remainder of the exchange has been delivered (two more deliveries
 are enough: the refused next request, then the sender's `<close/>`).  For every file (ANY number of blocks), negotiated
 block size, announced hash or none, true size announced, every data block `j`, and every `n ≥ 2`.
 Which error where: the RECEIVING job always ends with `FileCorruptError` (the byte count is short when `<close/>`
@@ -184,32 +198,61 @@ theorem fault_then_honest_reports_corruption (H : List UInt8 → List UInt8) (bs
   rw [e, run_honest_settled H _ 2 key.2.2.1 n hn]
   exact key
 
-/-- **Defect (no timeout): a block — or the answer to it — that is lost on a stream that stays up is never reported.**
-It is NOT true that after a lost data block the receiving job eventually finishes: with nothing else arriving both
-jobs stay in `TransferState` for ever (the library has no timer on the in-band path; recorded finding
-`C19:lost-stanza-hangs-forever`).  Witness: one byte, block size 1, the only block lost. -/
-theorem C19_defect_lost_block_never_reported :
-    ¬ ∀ (H : List UInt8 → List UInt8) (bsS bsR : Nat) (hash : Option (List UInt8)) (data : List UInt8) (j : Nat),
-      0 < bsS → bsS ≤ bsR → j * bsS < data.length →
-      ∃ n, (run H (init bsS bsR data.length hash data) (honest (j + 1) ++ .lose :: honest n)).1.r.state = .finished := by
-  intro h
-  obtain ⟨n, hn⟩ := h (fun _ => []) 1 1 none [0] 0 (by decide) (by decide) (by decide)
-  have hlen : [(0 : UInt8)].length = 1 := rfl
-  rw [hlen, run_append, honest_prefix (fun _ => []) 1 1 1 none [0] (by decide) (by decide) 0 (by decide)] at hn
-  have hi := lose_idle (fun _ => []) 1 1 none [0] 0
-  rw [hlen] at hi
-  have e : (run (fun _ => []) (atBlock 1 1 1 none [0] 0) (.lose :: honest n)).1 =
-      (step (fun _ => []) (atBlock 1 1 1 none [0] 0) .lose).1 := by
-    show (run _ (step _ _ .lose).1 (honest n)).1 = _
-    exact run_honest_idle _ _ hi.1 n
-  rw [e, hi.2.1] at hn
-  cases hn
+/-- **Every single fault on a data block, the honest remainder and enough time end in an error — never success,
+never pending** (FULL: every file of any size, every negotiated block size, announced hash or none, true size
+announced, every data block `j`).  Let ONE of `drop`, `swap`, `earlyClose`, `wrongSid`, `wrongSender`, `lose` hit
+block `j`, deliver what the honest exchange still produces (`n ≥ 2` deliveries) and let the inactivity interval elapse
+(`timeout`): both jobs are finished, nothing is left in the channel, and the receiving job's error is
+`FileCorruptError` (drop, swap, earlyClose, wrongSid: the byte count is short when the sender's `<close/>` arrives) or
+`ProtocolError` (wrongSender, lose: nobody ever answers, the timer of repo commit afd7dc9 ends both jobs). -/
+theorem single_fault_ends_in_error (H : List UInt8 → List UInt8) (bsS bsR : Nat) (hash : Option (List UInt8))
+    (data : List UInt8) (hb : 0 < bsS) (hle : bsS ≤ bsR) (j : Nat) (hblk : j * bsS < data.length)
+    (f : Op) (hf : f ∈ [Op.drop, .swap, .earlyClose, .wrongSid, .wrongSender, .lose]) (n : Nat) (hn : 2 ≤ n) :
+    let st := (run H (init bsS bsR data.length hash data) (honest (j + 1) ++ f :: (honest n ++ [.timeout]))).1
+    st.r.state = .finished ∧ (st.r.error = .corrupt ∨ st.r.error = .protocol) ∧ st.s.state = .finished ∧
+      st.pending = none := by
+  intro st
+  have e : st = (step H (run H (step H (atBlock bsS bsR data.length hash data j) f).1 (honest n)).1 .timeout).1 := by
+    show (run H _ (honest (j + 1) ++ f :: (honest n ++ [.timeout]))).1 = _
+    rw [run_append, honest_prefix H bsS bsR data.length hash data hb hle j hblk]
+    show (run H (step H _ f).1 (honest n ++ [.timeout])).1 = _
+    rw [run_append]
+    rfl
+  rw [e]
+  simp only [List.mem_cons, List.mem_nil_iff, or_false] at hf
+  have fin : ∀ f', Reported (run H (step H (atBlock bsS bsR data.length hash data j) f').1 (honest 2)).1 →
+      let st' := (step H (run H (step H (atBlock bsS bsR data.length hash data j) f').1 (honest n)).1 .timeout).1
+      st'.r.state = .finished ∧ (st'.r.error = .corrupt ∨ st'.r.error = .protocol) ∧ st'.s.state = .finished ∧
+        st'.pending = none := by
+    intro f' key
+    rw [run_honest_settled H _ 2 key.2.2.1 n hn]
+    have := timeout_of_reported H _ key
+    exact ⟨this.1, Or.inl this.2.1, this.2.2.2, this.2.2.1⟩
+  have idle : ∀ f', ((step H (atBlock bsS bsR data.length hash data j) f').1.pending = none ∧
+      (step H (atBlock bsS bsR data.length hash data j) f').1.r.state = .transfer ∧
+      (step H (atBlock bsS bsR data.length hash data j) f').1.s.state = .transfer) →
+      let st' := (step H (run H (step H (atBlock bsS bsR data.length hash data j) f').1 (honest n)).1 .timeout).1
+      st'.r.state = .finished ∧ (st'.r.error = .corrupt ∨ st'.r.error = .protocol) ∧ st'.s.state = .finished ∧
+        st'.pending = none := by
+    intro f' hi
+    rw [run_honest_idle H _ hi.1 n]
+    have := timeout_of_waiting H _ hi.2.1 hi.2.2 hi.1
+    exact ⟨this.1, Or.inr this.2.1, this.2.2.1, this.2.2.2.2⟩
+  rcases hf with rfl | rfl | rfl | rfl | rfl | rfl
+  · exact fin _ (drop_reports H bsS bsR hash data j hb hblk)
+  · exact fin _ (swap_reports H bsS bsR hash data j hb hblk)
+  · exact fin _ (earlyClose_reports H bsS bsR hash data j hblk)
+  · exact fin _ (wrongSid_reports H bsS bsR hash data j hblk)
+  · exact idle _ (wrongSender_idle H bsS bsR hash data j)
+  · exact idle _ (lose_idle H bsS bsR hash data j)
 
-/-- **The hang in general, and what ends it.**  For every file, block size and data block `j`: if block `j` is lost
-without any answer (`lose`), or delivered under another sender JID so that the answer goes elsewhere (`wrongSender`),
-then after ANY number of further honest deliveries both jobs are still in `TransferState` with nothing in the channel;
-and as soon as the stream is closed (`<close/>` arrives) the receiving job finishes with `FileCorruptError`. -/
-theorem lost_block_without_answer_hangs_until_closed (H : List UInt8 → List UInt8) (bsS bsR : Nat) (hash : Option (List UInt8))
+/-- **Until the interval elapses, a silently lost block leaves both jobs waiting; a `<close/>` ends the wait earlier.**
+For every file, block size and data block `j`: if block `j` is lost without any answer (`lose`), or delivered under
+another sender JID so that the answer goes elsewhere (`wrongSender`), then after ANY number of further honest
+deliveries (no `timeout`) both jobs are still in `TransferState` with nothing in the channel; and as soon as the stream
+is closed (`<close/>` arrives) the receiving job finishes with `FileCorruptError`.  (Before repo commit afd7dc9 the wait
+never ended: former finding `C19:lost-stanza-hangs-forever`.) -/
+theorem lost_block_waits_for_close_or_timeout (H : List UInt8 → List UInt8) (bsS bsR : Nat) (hash : Option (List UInt8))
     (data : List UInt8) (hb : 0 < bsS) (hle : bsS ≤ bsR) (j : Nat) (hblk : j * bsS < data.length) :
     (∀ f ∈ [Op.lose, .wrongSender], ∀ n,
       let st := (run H (init bsS bsR data.length hash data) (honest (j + 1) ++ f :: honest n)).1
@@ -248,8 +291,7 @@ theorem altered_block_never_success (H : List UInt8 → List UInt8) (bsS bsR siz
              (run H (init bsS bsR size (some (H data)) data) (honest (j + 1) ++ .flip bit :: cont)).1.r.fed = data) :
     ¬ (run H (init bsS bsR size (some (H data)) data) (honest (j + 1) ++ .flip bit :: cont)).1.r.success := by
   intro hs
-  have hid := success_implies_identical_bytes H .unlimited bsS bsR size data _ (Or.inr rfl) hcoll hs
-  change (run H (init bsS bsR size (some (H data)) data) (honest (j + 1) ++ .flip bit :: cont)).1.r.acc = data at hid
+  have hid := success_implies_identical_bytes H bsS bsR size data _ hcoll hs
   rw [run_append, honest_prefix H bsS bsR size (some (H data)) data hb hle j hblk] at hid
   have hpre : ∃ t, (run H (step H (atBlock bsS bsR size (some (H data)) data j) (.flip bit)).1 cont).1.r.acc =
       (data.take (j * bsS) ++ flipBit ((data.drop (j * bsS)).take bsS) bit) ++ t :=
@@ -272,7 +314,12 @@ theorem altered_block_reports_corruption (H : List UInt8 → List UInt8) (bsS bs
     st.r.state = .finished ∧ st.r.error = .corrupt := by
   intro st
   have hns := altered_block_never_success H bsS bsR size data hb hle j hblk bit (honest n) hcoll
-  have hok : REok st.r := run_r_inv H REok (recv_REok H) _ _ (Or.inl rfl)
+  have hok : REok st.r := run_r_inv_nt H REok (recv_REok H) _
+    (by
+      intro op hop
+      simp only [honest, List.mem_append, List.mem_cons, List.mem_replicate] at hop
+      rcases hop with ⟨_, rfl⟩ | rfl | ⟨_, rfl⟩ <;> simp)
+    _ ⟨rfl, Or.inl rfl⟩
   have e : st = (run H (step H (atBlock bsS bsR size (some (H data)) data j) (.flip bit)).1 (honest n)).1 := by
     show (run H _ (honest (j + 1) ++ .flip bit :: honest n)).1 = _
     rw [run_append, honest_prefix H bsS bsR size (some (H data)) data hb hle j hblk]
@@ -284,7 +331,7 @@ theorem altered_block_reports_corruption (H : List UInt8 → List UInt8) (bsS bs
     · exact (sync_finishes H data.length _ (by rw [hfs.2.1]; exact hb) hs hfs.2.2 n hn).1
     · exact (closing_finishes H _ hc n (by omega)).1
   refine ⟨hfin, ?_⟩
-  rcases hok with hnone | hc
+  rcases hok.2 with hnone | hc
   · exact absurd ⟨hfin, hnone⟩ hns
   · exact hc
 
@@ -309,21 +356,6 @@ theorem C19_defect_nosize_nohash_truncated_accepted :
       ¬ (run H (init bsS bsR 0 none data) (honest (j + 1) ++ [.earlyClose])).1.r.success := by
   intro h
   exact h (fun _ => []) 1 1 [0, 1] 1 (by decide) (by decide) (by decide) (by decide)
-
-/-- **Defect (short write, no size announced; recorded finding `C19:nosize-short-write-accepted`).**  The hypothesis
-`hsz` of `success_implies_identical_bytes` cannot be dropped: `writeData` hashes the bytes it OFFERED to the device, so
-with the hash announced but no size, a device that takes one byte per `write()` ends with success holding half the
-file.  Witness: `01 02`, block size 2, hash = identity. -/
-theorem C19_defect_nosize_short_write_accepted :
-    ¬ ∀ (H : List UInt8 → List UInt8) (dev : Dev) (bsS bsR : Nat) (data : List UInt8) (ops : List Op),
-      (H (run H (initDev dev bsS bsR 0 (some (H data)) data) ops).1.r.fed = H data →
-        (run H (initDev dev bsS bsR 0 (some (H data)) data) ops).1.r.fed = data) →
-      (run H (initDev dev bsS bsR 0 (some (H data)) data) ops).1.r.success →
-      (run H (initDev dev bsS bsR 0 (some (H data)) data) ops).1.r.acc = data := by
-  intro h
-  have := h id (.perWrite 1) 2 2 [1, 2] (honest 3) (by intro hh; exact hh) (by decide)
-  revert this
-  decide
 
 /-- **A duplicated block is refused and harmless.**  For every file, block sizes and data block `j`: delivering
 block `j` twice leaves both jobs and the channel in exactly the state of delivering it once; the second copy is
@@ -352,7 +384,7 @@ theorem sender_success_implies_all_read (H : List UInt8 → List UInt8) (dev : D
     (run H (initDev dev bsS bsR size hash data) ops).1.s.success →
     (run H (initDev dev bsS bsR size hash data) ops).1.s.rest = [] := by
   intro hs
-  have hd := run_s_inv H (SDone bsS) (sender_SDone bsS) ops (initDev dev bsS bsR size hash data)
+  have hd := run_s_inv H (SDone bsS) (sender_SDone bsS) (terminate_SDone bsS) ops (initDev dev bsS bsR size hash data)
     ⟨rfl, by intro hf; simp [initDev] at hf⟩
   have := hd.2 hs.1 hs.2
   rcases List.take_eq_nil_iff.mp this with h0 | h0
@@ -385,10 +417,11 @@ theorem socks_sender_success_implies_all_written (h : SHost) (size written : Nat
 /-! ## SOCKS5 byte stream (no sequence numbers; stream-host / proxy negotiation outside the model) -/
 
 /-- **SOCKS5: success ⇒ the device holds identical bytes** for every sequence of socket events (chunks of any content,
-disconnects) and every receiving device, when the offer carried the hash and the true size (or the device takes
-everything) and MD5 does not collide on what the hash was fed and the file. -/
+disconnects), EVERY receiving device (takes everything, short writes, runs full, fails) and every announced size, when
+the offer carried the hash and MD5 does not collide on what the hash was fed and the file.  (A device that refuses
+data ends the job with `FileAccessError`, and on the byte-stream path nothing can revive a finished job.) -/
 theorem socks_success_implies_identical_bytes (H : List UInt8 → List UInt8) (dev : Dev) (size : Nat) (data : List UInt8)
-    (ops : List SOp) (hsz : size = data.length ∨ dev = .unlimited)
+    (ops : List SOp)
     (hcoll : H (srun H (sinitDev dev size (some (H data))) ops).fed = H data →
              (srun H (sinitDev dev size (some (H data))) ops).fed = data) :
     (srun H (sinitDev dev size (some (H data))) ops).success → (srun H (sinitDev dev size (some (H data))) ops).acc = data := by
@@ -396,26 +429,15 @@ theorem socks_success_implies_identical_bytes (H : List UInt8 → List UInt8) (d
   have hc := srun_checked H ops (sinitDev dev size (some (H data))) (by intro h; simp [sinitDev] at h)
   have hck := (checkFails_false_iff H _).1 (hc hs.1 hs.2)
   have hfed := hcoll (hck.2 _ (by simp [sinitDev]))
-  rcases hsz with hsz | hu
-  · have haf := srun_AF H ops (sinitDev dev size (some (H data))) (Or.inl rfl)
-    rcases haf with haf | haf
-    · rw [haf]; exact hfed
-    · rw [hfed] at haf
-      by_cases hz : size = 0
-      · omega
-      · have hsize : (srun H (sinitDev dev size (some (H data))) ops).size = size := by
-          rw [srun_size]; rfl
-        have := hck.1 (by rw [hsize]; exact hz)
-        rw [hsize] at this
-        omega
-  · have hafu := srun_AFU H ops (sinitDev dev size (some (H data))) ⟨hu, rfl⟩
-    rw [hafu.2]; exact hfed
+  rcases srun_AS H ops (sinitDev dev size (some (H data))) (Or.inl rfl) with h | ⟨_, he⟩
+  · rw [h]; exact hfed
+  · rw [hs.2] at he; cases he
 
 /-- **SOCKS5: a stream cut short is never reported as success** — for every announced size, hash or none, and every
 event sequence that carries fewer bytes than announced, and every receiving device. -/
 theorem socks_short_stream_never_success (H : List UInt8 → List UInt8) (dev : Dev) (size : Nat) (hash : Option (List UInt8))
     (ops : List SOp) (hshort : sbytes ops < size) : ¬ (srun H (sinitDev dev size hash) ops).success :=
-  srun_short H ops (sinitDev dev size hash) (by simp [sinitDev, Recv.success]) (by simpa [sinitDev, Recv.acc] using hshort)
+  srun_short H ops (sinitDev dev size hash) (by simp [sinitDev, Recv.success]) (by simpa [sinitDev, Recv.fed] using hshort)
 
 /-- **SOCKS5: the faithful stream succeeds** however the bytes are split into reads, with or without a hash, into a device
 that takes what it is given. -/
@@ -443,6 +465,9 @@ example : (run id (init 2 4096 5 none [1, 2, 3, 4, 5]) (honest 2 ++ .drop :: hon
 -- block 1 lost and nobody answers: both jobs are still waiting after any number of further deliveries …
 example : (run id (init 2 4096 5 none [1, 2, 3, 4, 5]) (honest 2 ++ .lose :: honest 7)).1.r.state = .transfer
     ∧ (run id (init 2 4096 5 none [1, 2, 3, 4, 5]) (honest 2 ++ .lose :: honest 7)).1.s.state = .transfer := by decide
+-- … until the inactivity interval elapses: both end with ProtocolError
+example : (run id (init 2 4096 5 none [1, 2, 3, 4, 5]) (honest 2 ++ .lose :: (honest 7 ++ [.timeout]))).1.r.error = .protocol
+    ∧ (run id (init 2 4096 5 none [1, 2, 3, 4, 5]) (honest 2 ++ .lose :: (honest 7 ++ [.timeout]))).1.s.error = .protocol := by decide
 -- … the peer's error response ends the sending job with ProtocolError, a stale or foreign response does nothing
 example : (run id (init 2 4096 5 none [1, 2, 3, 4, 5]) [.deliver, .injectReply 0 0 (some .itemNotFound)]).1.s.error = .protocol := by decide
 example : (run id (init 2 4096 5 none [1, 2, 3, 4, 5]) [.deliver, .injectReply 2 0 none, .injectReply 0 1 none]).1
@@ -458,15 +483,15 @@ example : (run id (init 2 4096 5 none [1, 2, 3, 4, 5])
       [.deliver, .dup, .inject 1 0 (.data 1 [9, 9]), .inject 0 1 .close, .deliver, .deliver, .deliver]).1.r.success := by decide
 example : ∀ op ∈ [Op.deliver, .dup, .inject 1 0 (.data 1 [9, 9]), .inject 0 1 .close, .deliver], op.benign := by
   simp [Op.benign]
--- a device that takes one byte per write() / runs full / fails: the honest transfer ends in FileCorruptError, the device
--- holds less than the file, the job's hash input is the whole file
-example : (run id (initDev (.perWrite 1) 2 4096 5 (some [1, 2, 3, 4, 5]) [1, 2, 3, 4, 5]) (honest 5)).1.r.error = .corrupt
-    ∧ (run id (initDev (.perWrite 1) 2 4096 5 (some [1, 2, 3, 4, 5]) [1, 2, 3, 4, 5]) (honest 5)).1.r.acc = [1, 3, 5]
-    ∧ (run id (initDev (.perWrite 1) 2 4096 5 (some [1, 2, 3, 4, 5]) [1, 2, 3, 4, 5]) (honest 5)).1.r.fed = [1, 2, 3, 4, 5] := by decide
-example : (run id (initDev (.fullAfter 3) 2 4096 5 none [1, 2, 3, 4, 5]) (honest 5)).1.r.error = .corrupt
+-- a device that takes one byte per write() / runs full / fails: the job ends with FileAccessError at the first block the
+-- device does not take completely; what the device did take stays in it, counter and hash do not move
+example : (run id (initDev (.perWrite 1) 2 4096 5 (some [1, 2, 3, 4, 5]) [1, 2, 3, 4, 5]) (honest 5)).1.r.error = .access
+    ∧ (run id (initDev (.perWrite 1) 2 4096 5 (some [1, 2, 3, 4, 5]) [1, 2, 3, 4, 5]) (honest 5)).1.r.acc = [1]
+    ∧ (run id (initDev (.perWrite 1) 2 4096 5 (some [1, 2, 3, 4, 5]) [1, 2, 3, 4, 5]) (honest 5)).1.r.fed = [] := by decide
+example : (run id (initDev (.fullAfter 3) 2 4096 5 none [1, 2, 3, 4, 5]) (honest 5)).1.r.error = .access
     ∧ (run id (initDev (.fullAfter 3) 2 4096 5 none [1, 2, 3, 4, 5]) (honest 5)).1.r.acc = [1, 2, 3] := by decide
-example : (run id (initDev (.failAt 3) 2 4096 5 none [1, 2, 3, 4, 5]) (honest 5)).1.r.error = .corrupt
-    ∧ (run id (initDev (.failAt 3) 2 4096 5 none [1, 2, 3, 4, 5]) (honest 5)).1.r.acc = [1, 2, 5] := by decide
+example : (run id (initDev (.failAt 3) 2 4096 5 none [1, 2, 3, 4, 5]) (honest 5)).1.r.error = .access
+    ∧ (run id (initDev (.failAt 3) 2 4096 5 none [1, 2, 3, 4, 5]) (honest 5)).1.r.acc = [1, 2] := by decide
 -- SOCKS5: faithful stream in two reads succeeds, a truncated one is corrupt
 example : (srun id (sinit 3 (some [7, 8, 9])) [.chunk [7], .chunk [8, 9], .disconnect]).success := by decide
 example : (srun id (sinit 3 (some [7, 8, 9])) [.chunk [7, 8], .disconnect]).error = .corrupt := by decide
